@@ -552,7 +552,7 @@ impl Gen {
                         _ => self.rng.below(len + 1),
                     };
                     let v = *self.rng.pick(&["iter", "keys", "values", "iter_mut", "values_mut"]);
-                    format!("{} iter {} {}", tgt, p, v)
+                    format!("{} iter {} {}{}", tgt, p, v, if self.rng.chance(1, 4) { " nth" } else { "" })
                 } else if x < 90 {
                     if self.rng.chance(1, 3) { format!("{} drain_fold {}", tgt, self.rng.below(8)) } else { format!("{} drain {} 0", tgt, self.rng.below(8)) }
                 } else if x < 94 {
@@ -789,7 +789,7 @@ impl Gen {
             if self.rng.chance(1, 3) { format!("{} into_iter_fold {}", tgt, self.rng.below(12)) } else { format!("{} into_iter {}", tgt, self.rng.below(12)) }
         } else if x < 900 {
             let v = *self.rng.pick(&["iter", "keys", "values"]);
-            format!("{} iter {} {}", tgt, self.rng.below(10), v)
+            format!("{} iter {} {}{}", tgt, self.rng.below(10), v, if self.rng.chance(1, 4) { " nth" } else { "" })
         } else if x < 915 {
             format!("{} with_capacity {}", tgt, self.rng.below(60))
         } else if x < 940 {
